@@ -1929,6 +1929,9 @@ class Wallet(object):
                 if self.cosigner_id is None:
                     raise WalletError("Missing Cosigner ID value, cannot create new key")
                 cosigner_id = self.cosigner_id
+        else:
+            # The keys of a wallet without cosigners have no cosigner ID
+            cosigner_id = None
         witness_type = self.witness_type if not witness_type else witness_type
         purpose = self.purpose
         if witness_type != self.witness_type:
